@@ -18,7 +18,8 @@ Definition not_bounds (e : event) : bool :=
 Definition erase_state (s : pstate) : pstate :=
   {| stack := map erase_item (stack s); la := la s; lasym := lasym s;
      qla := qla s; qlasym := qlasym s; input := input s; pos := pos s;
-     trace := filter not_bounds (trace s) |}.
+     trace := filter not_bounds (trace s);
+     shifts := shifts s; rec_shifts := rec_shifts s |}.
 
 Definition erase_outcome (o : outcome) : outcome :=
   match o with
@@ -119,6 +120,19 @@ Proof.
   rewrite read_token_erase. destruct (read_token tb s) as [s'|]; [apply IH|reflexivity].
 Qed.
 
+Lemma drop_if_stuck_erase f s :
+  drop_if_stuck tb f (erase_state s) = erase_outcome (drop_if_stuck tb f s).
+Proof.
+  unfold drop_if_stuck.
+  change (shifts (erase_state s)) with (shifts s).
+  change (rec_shifts (erase_state s)) with (rec_shifts s).
+  change (la (erase_state s)) with (la s).
+  destruct (shifts s =? rec_shifts s); [|reflexivity].
+  destruct (la s =? EOF); [reflexivity|].
+  rewrite read_token_erase. destruct (read_token tb s) as [s'|]; [|reflexivity].
+  apply skip_errors_erase.
+Qed.
+
 Lemma recover_erase f s : recover tb f (erase_state s) = erase_outcome (recover tb f s).
 Proof.
   unfold recover. change (lasym (erase_state s)) with (lasym s).
@@ -126,7 +140,9 @@ Proof.
   rewrite skip_errors_erase.
   destruct (match lasym s with VErr _ _ => Some (lasym s) | _ => make_error tb s end) as [e|];
     [|reflexivity].
-  destruct (skip_errors tb f s) as [s1| | | |]; try reflexivity. apply recover_outer_erase.
+  destruct (skip_errors tb f s) as [s1| | | |]; try reflexivity. cbn [erase_outcome].
+  rewrite drop_if_stuck_erase.
+  destruct (drop_if_stuck tb f s1) as [s2| | | |]; try reflexivity. apply recover_outer_erase.
 Qed.
 
 (* ---------- _lasym is always a Token or an Error ---------- *)
@@ -187,6 +203,15 @@ Proof.
     apply IH; [exact Hp|]. eapply read_token_inv; eauto. apply Hi.
 Qed.
 
+Lemma drop_if_stuck_inv f s s' : Inv s -> drop_if_stuck tb f s = Continue s' -> Inv s'.
+Proof.
+  intros Hi. unfold drop_if_stuck. destruct (shifts s =? rec_shifts s).
+  - destruct (la s =? EOF); [discriminate|].
+    destruct (read_token tb s) as [s1|] eqn:E; [|discriminate].
+    apply skip_errors_inv. eapply read_token_inv; eauto. apply Hi.
+  - intros H. inversion H; subst. exact Hi.
+Qed.
+
 Lemma recover_inv f s s' : Inv s -> recover tb f s = Continue s' -> Inv s'.
 Proof.
   intros Hi. unfold recover.
@@ -196,7 +221,9 @@ Proof.
   { destruct (lasym s) eqn:El; try (eapply make_error_verr; eassumption).
     inversion Ee; subst. exact I. }
   destruct (skip_errors tb f s) as [s1| | | |] eqn:Es; try discriminate.
-  apply recover_outer_inv; auto. eapply skip_errors_inv; eauto.
+  destruct (drop_if_stuck tb f s1) as [s2| | | |] eqn:Ed; try discriminate.
+  apply recover_outer_inv; auto. eapply drop_if_stuck_inv; [|exact Ed].
+  eapply skip_errors_inv; eauto.
 Qed.
 
 Lemma pstep_inv eb rec f s s' : Inv s -> pstep tb eb rec discard f s = Continue s' -> Inv s'.
@@ -207,9 +234,10 @@ Proof.
   - destruct (action =? accept_code); [discriminate|].
     destruct (action >=? 0).
     + match goal with |- match ?bb with _ => _ end = _ -> _ => destruct bb as [b|] end; [|discriminate].
-      match goal with |- context [read_token tb ?x] => destruct (read_token tb x) as [s2|] eqn:E end;
-        [|discriminate].
-      intros H. inversion H; subst. eapply read_token_inv; [|exact E]. apply Hi.
+      cbv zeta. destruct (la s =? ERROR);
+        (match goal with |- context [read_token tb ?x] => destruct (read_token tb x) as [s2|] eqn:E end;
+           [|discriminate]);
+        intros H; inversion H; subst; (eapply read_token_inv; [|exact E]); apply Hi.
     + cbv zeta.
       destruct (nthz (t_term_counts tb) (- action)) as [tc|]; [|discriminate].
       destruct (nthz (t_rules tb) (- action)) as [rule|]; [|discriminate].
@@ -225,23 +253,10 @@ Proof.
 Qed.
 
 (* ---------- one iteration ---------- *)
-Lemma shift_outcome s action b :
-  erase_outcome
-    (match read_token tb (set_stack s ({| i_state := action; i_sym := lasym s; i_bounds := b |} :: stack s)) with
-     | None => Crash | Some s2 => Continue s2 end) =
-  match read_token tb (set_stack (erase_state s)
-          ({| i_state := action; i_sym := lasym (erase_state s); i_bounds := no_bounds |}
-             :: stack (erase_state s))) with
-  | None => Crash | Some s2 => Continue s2 end.
-Proof.
-  match goal with |- context [read_token tb (set_stack s ?st)] =>
-    change (set_stack (erase_state s)
-              ({| i_state := action; i_sym := lasym (erase_state s); i_bounds := no_bounds |}
-                 :: stack (erase_state s)))
-      with (erase_state (set_stack s st)) end.
-  rewrite read_token_erase.
-  match goal with |- context [read_token tb ?x] => destruct (read_token tb x) end; reflexivity.
-Qed.
+Lemma shift_outcome x :
+  erase_outcome (match read_token tb x with None => Crash | Some s2 => Continue s2 end) =
+  match read_token tb (erase_state x) with None => Crash | Some s2 => Continue s2 end.
+Proof. rewrite read_token_erase. destruct (read_token tb x); reflexivity. Qed.
 
 Lemma pstep_erase eb rec f s : (eb = true -> tokerr (lasym s)) ->
   erase_outcome (pstep tb eb rec discard f s) = pstep tb false rec discard f (erase_state s).
@@ -255,10 +270,14 @@ Proof.
   destruct (find (t_actions tb) (i_state top) (la s)) as [action| |]; [| |reflexivity].
   - destruct (action =? accept_code); [reflexivity|].
     destruct (action >=? 0).
-    + destruct eb.
+    + change (shifts (erase_state s)) with (shifts s).
+      change (rec_shifts (erase_state s)) with (rec_shifts s).
+      destruct eb.
       * specialize (Hte eq_refl). destruct (lasym s) eqn:El; try contradiction; cbn [latok];
-          rewrite <- El; apply shift_outcome.
-      * apply shift_outcome.
+          rewrite <- El; cbv zeta; destruct (la s =? ERROR);
+          match goal with |- context [read_token tb ?x] => apply (shift_outcome x) end.
+      * cbv zeta. destruct (la s =? ERROR);
+          match goal with |- context [read_token tb ?x] => apply (shift_outcome x) end.
     + cbv zeta. rewrite act_erase.
       destruct (nthz (t_term_counts tb) (- action)) as [tc|]; [|reflexivity].
       destruct (nthz (t_rules tb) (- action)) as [rule|]; [|reflexivity].
